@@ -2,6 +2,7 @@ import Lean.Data.Json
 import SpoxModel.Model.Subgraph
 import SpoxModel.Model.SubgraphSpec
 import SpoxModel.Model.SubgraphNested
+import SpoxModel.Model.SubgraphNames
 import SpoxModel.Model.CallForm
 import SpoxModel.Generated.SubgraphSpecs
 import SpoxModel.Generated.CallbackSites
@@ -206,7 +207,49 @@ def handleDirect (d : Json) : Json :=
   | .ok j => j
   | .error e => Json.mkObj [("error", e)]
 
+/-- Round 10: the name glue. `{"names": {"pre": "in", "n": 12, "outs": [..]}}` → the dict
+    `enum_arguments` / `enum_results` build for `n` infos (values = positions) and the stored state of
+    `subgraph`'s tail for these `outs`. -/
+def handleNames (d : Json) : Json :=
+  match (do
+    let pre ← d.getObjValAs? String "pre"
+    let n ← d.getObjValAs? Nat "n"
+    let outs := ((d.getObjValAs? (Array Nat) "outs").toOption.getD #[]).toList
+    let start := (d.getObjValAs? Nat "start").toOption.getD 0
+    let dict : List (String × Nat) := SubgraphNames.enumDict pre (List.range n)
+    let t : List Nat × List Nat × SubgraphNames.StoredGraph := SubgraphNames.subgraphTail (List.range n) start 0 outs
+    let sorted : List (String × Nat) := SubgraphNames.sortedByName dict
+    return Json.mkObj [("names", toJson (dict.map (fun (p : String × Nat) => p.1)).toArray), ("order", toJson (dict.map (fun (p : String × Nat) => p.2)).toArray),
+      ("sortedOrder", toJson (sorted.map (fun (p : String × Nat) => p.2)).toArray),
+      ("args", toJson (SubgraphNames.enumArguments pre (List.range n)).toArray),
+      ("ins", toJson t.1.toArray), ("tys", toJson t.2.1.toArray),
+      ("results", Json.arr (t.2.2.results.map (fun (p : String × Nat) => Json.arr #[toJson p.1, toJson p.2])).toArray),
+      ("arguments", toJson t.2.2.arguments.toArray)]) with
+  | .ok j => j
+  | .error e => Json.mkObj [("error", e)]
+
+/-- Round 10: `_make_dummy_subgraph`. `{"dummy": {"key": "body", "types": [ty…], "res": [ty…]}}`. -/
+def handleDummy (d : Json) : Json :=
+  match (do
+    let key ← d.getObjValAs? String "key"
+    let tys ← ((d.getObjValAs? (Array Json) "types").toOption.getD #[]).toList.mapM parseTy
+    let res ← ((d.getObjValAs? (Array Json) "res").toOption.getD #[]).toList.mapM parseTy
+    let g : SubgraphNames.DummyGraph Ty := SubgraphNames.dummyOfSubgraph key tys res
+    let vis (xs : List (String × Ty)) : Json :=
+      Json.arr (xs.map (fun (p : String × Ty) => Json.arr #[toJson p.1, tyToJson p.2])).toArray
+    return Json.mkObj [("name", toJson g.name), ("inputs", vis g.inputs), ("outputs", vis g.outputs),
+      ("valueInfos", vis g.valueInfos),
+      ("nodes", Json.arr (g.nodes.map (fun (p : String × String) => Json.arr #[toJson p.1, toJson p.2])).toArray)]) with
+  | .ok j => j
+  | .error e => Json.mkObj [("error", e)]
+
 def handle (req : Json) : Json :=
+  match req.getObjVal? "dummy" with
+  | .ok d => handleDummy d
+  | .error _ =>
+  match req.getObjVal? "names" with
+  | .ok d => handleNames d
+  | .error _ =>
   match req.getObjVal? "direct" with
   | .ok d => handleDirect d
   | .error _ =>
